@@ -29,6 +29,7 @@ class FakeMP(object):
         self.tape = tape
         self.max_queue_delay = max_queue_delay
         self.slow_start = slow_start
+        self.exit_delay = 0.0
         self.processes = []
         self.queues_made = []
         self._pid = 1000
@@ -233,6 +234,7 @@ class FakeProcess(object):
         self.tasks_handled = 0
         self.killed_by = None
         self.ignores_sigterm = False
+        self.kill_failed = False
         self.daemon = False
 
     def start(self):
@@ -258,7 +260,12 @@ class FakeProcess(object):
         def body():
             if delay:
                 sim.sleep(delay)
-            call()
+            try:
+                call()
+            finally:
+                # an orderly exit may take a while (non-daemon threads, atexit handlers); a SIGKILL does not wait
+                if mp.exit_delay and not self.task.killed:
+                    sim.sleep(mp.exit_delay)
         self.task = sim.spawn(body, name='%s[%d]' % (self.name, self.pid), proc=self, start=False)
         self.task.on_exit = self._on_exit
         sim.start_task(self.task)
@@ -331,6 +338,7 @@ class OsProxy(object):
             raise ProcessLookupError(3, 'No such process')
         if self.kill_raises:
             sim.run.fault('kill_raises_oserror')
+            p.kill_failed = True
             raise PermissionError(1, 'Operation not permitted')
         p.killed_by = 'os.kill'
         p.kill()
